@@ -119,7 +119,8 @@ def classify_gemini(text: str):
         port = 1965
     else:
         if not re.fullmatch(r"[0-9]+", port_text):
-            return "undecided", "port-outside-grammar"
+            # RFC 3986: port = *DIGIT.  '+80', '8_0', '0x50', '1e2', '-1' are no ports, whatever int() thinks
+            return "reject", "port-outside-grammar"
         port = int(port_text)
         if port > 65535:
             return "undecided", "port-too-large"
@@ -151,6 +152,17 @@ def classify_line(raw: bytes, uploads_enabled: bool = False):
         text = raw.decode("utf-8")
     except UnicodeDecodeError:
         return "reject", "invalid-utf8", {59}
+    # a port that is not made of ASCII digits is no port (RFC 3986: *DIGIT) - whatever else is odd about the line
+    m_auth = re.match(r"^[A-Za-z][A-Za-z0-9+.-]*://([^/?#]*)", text)
+    if m_auth:
+        auth = m_auth.group(1).rpartition("@")[2]
+        tail = auth.rpartition("]")[2] if "]" in auth else auth
+        if ":" in tail:
+            port_text = tail.rpartition(":")[2].partition(";")[0]  # (a titan line without path carries its parameters here)
+            if re.search(r"[\t\r\n]", tail):
+                port_text = ""  # urllib drops TAB / CR / LF silently: grey, see below
+            if port_text and not re.fullmatch(r"[0-9]+", port_text) and (uploads_enabled or not text.lower().startswith("titan:")):
+                return "reject", "port-outside-grammar", ({59} if not text.lower().startswith("titan:") or uploads_enabled else {50, 59})
     if not _REPERTOIRE.fullmatch(text):
         # raw controls, space, non-ASCII, quotes, <>, backslash ...: outside RFC 3986's alphabet.
         # urllib strips TAB/CR/LF and leading controls silently; the property's grammar does not
